@@ -30,6 +30,15 @@ TRUSTED = [
     "RandomForestClassifier: the trees are fitted with a throw-away unlimited accountant of their own (since c39fc2b; "
     "before, sklearn's clone() deep-copied the constructor-time DEFAULT accountant into every tree, so an exhausted "
     "default refused a forest whose own accountant had budget — kept as regression scenario FOREST_WITNESS)",
+    "static tie (harness/translate/charges.py -> DPL/Generated/C09Charges.lean, checker proved sound in "
+    "DPL/Proofs/ChargeIR.lean): trusted = the translator's reading of the AST. It is INTRA-procedural (each entry point "
+    "on its own; a delegating tool is tied to its callee only by 'one call handing on accountant= and epsilon='; "
+    "`_check_cells`, `BudgetAccountant.check/spend/load_default` are primitives by NAME), recognises the own accountant "
+    "(`accountant` / `self.accountant` / `kwargs.get('accountant')`), throw-away accountants (`BudgetAccountant()`), "
+    "mechanisms (classes exported by diffprivlib.mechanisms, `.randomise(`, library helpers that transitively contain "
+    "one; sklearn's `_parallel_build_trees` by name) by NAME, and 'same epsilon' is equality of the unparsed source "
+    "expressions of check and spend (no evaluation, no aliasing of locals); `return self` after a check with no noise "
+    "drawn is accepted as 'nothing released'; loop trip counts are not related to `n_cells`",
 ]
 UNPROVED = [
     "multi_cell_charge / multi_quantile_charge are proved over the reals (the recorded spends sum to eps; the accountant "
@@ -721,6 +730,27 @@ def witness_nested(entry):
 WITNESSES = {"C09:RandomForestClassifier:refused-although-fits": witness_forest,
              "C09:quantile:nested-check-refuses-fitting-sequence": witness_nested("quantile"),
              "C09:percentile:nested-check-refuses-fitting-sequence": witness_nested("percentile")}
+
+
+def generate(ctx):
+    """static translator tie: the charge skeleton (resolve / check / noise / spend / delegation, with control flow) of
+    every public tool and every estimator method touching `self.accountant` is re-extracted from /repo's CURRENT AST and
+    `wellCharged sk = true` is decided in Lean (DPL.C09.static_skeleton_sound says what that means for every path).
+    An entry point the translator cannot follow is reported as unavailable (not as a failed obligation)."""
+    import os
+    from ..translate import charges
+    repo = os.environ.get("VERIF_REPO", "/repo")
+    try:
+        info = charges.generate(repo, leanio.LEAN)
+    except (charges.TranslatorError, SyntaxError, OSError) as e:
+        ctx.note(f"charge-skeleton translator unavailable: {type(e).__name__}: {e}")
+        return {"build": [], "obligations": 0, "unavailable": [f"charges: {type(e).__name__}: {e}"[:300]]}
+    ctx.count("charge_skeletons", info["obligations"])
+    ctx.sample({"charge_skeleton_entries": info["entries"]})
+    out = {"build": ["DPL.Generated.C09Charges"], "obligations": info["obligations"]}
+    if info["unavailable"]:
+        out["unavailable"] = ["charges: " + u[:200] for u in info["unavailable"]]
+    return out
 
 
 def check(ctx):
